@@ -928,7 +928,7 @@ func verifC05() {
 	before, _ := sc.observe()
 	coreL := func() []string { return vkit.ObserveLedger(sc.e.L, sc.blockIDs[:2], sc.txIDs[:3]) }
 	lbefore := coreL()
-	kind := vrt.Choice("failure", 8)
+	kind := vrt.Choice("failure", 9)
 	var b2 *pb.InternalBlock
 	stateMustBeUnchanged, ledgerMustBeUnchanged := true, true
 	switch kind {
@@ -996,6 +996,11 @@ func verifC05() {
 		err := sc.s.PlayForMiner(b.Blockid)
 		vrt.Assert(err != nil, "block-with-stale-generated-transaction-refused")
 		sc.failedMinerPlay = true
+	case 8: // pool submission whose token inputs are fine but which cites a stale version of the key it writes
+		stale := vkit.Tx("stale", []*protos.TxInput{vkit.In([]byte("t1"), 0, "B", sc.x)}, []*protos.TxOutput{vkit.Out("C", sc.x, 0)})
+		vkit.WithKey(stale, "bk", "k1", nil, 0, []byte("late"))
+		err := sc.s.DoTx(stale)
+		vrt.Assert(err != nil, "stale-key-version-refused")
 	case 5: // pool submission with a missing input
 		err := sc.s.DoTx(sc.badTx())
 		vrt.Assert(err != nil, "missing-input-refused")
@@ -1030,7 +1035,7 @@ func verifC05() {
 	sc.liveEqualsReopened("after-failure", failedPlay && stateMustBeUnchanged)
 	_ = b2
 	// the node carries on like one that never saw the failed operation
-	if kind == 0 || kind == 1 || kind == 5 {
+	if kind == 0 || kind == 1 || kind == 5 || kind == 8 {
 		vb := vkit.Block(sc.b1.Blockid, 20, []*pb.Transaction{vkit.Coinbase("cbv", "M", []byte{7}), sc.goodTx2()})
 		vrt.Assert(sc.e.L.ConfirmBlock(vb, false).Succ, "valid-block-confirmed-after-failure")
 		vrt.Assert(sc.s.Play(vb.Blockid) == nil, "valid-block-plays-after-failure")
@@ -1263,6 +1268,8 @@ func verifC12Submit(T int) {
 	e := vkit.NewEnv("c12", vkit.Genesis("0", "9", "5"), nil)
 	s := e.NewState("live")
 	vrt.Assert(s.Play(e.Root.Blockid) == nil, "genesis-plays")
+	// a node that has answered queries before: balance and output caches are warm when the requests arrive
+	_ = vkit.Observe(s)
 	root := e.RootTx.Txid
 	nine, five := big.NewInt(9), big.NewInt(5)
 	x := big.NewInt(vrt.Int("x", 1, 9))
